@@ -165,7 +165,7 @@ Example ex_hist_verdicts :
   map (fun cfg => map o_status (filter (fun o => negb (o_status o =? -1) && negb (length (o_limits o) =? 0)%nat)
                                        (run cfg init_state ex_hist)))
       [mkConfig false false; mkConfig false true; mkConfig true false; mkConfig true true]
-  = [[0; 1; 0; 1; 0; 0; 1]; [0; 1; 0; 1; 0; 0; 1]; [0; 1; 0; 1; 0; 1; 1]; [0; 1; 0; 1; 0; 1; 1]].
+  = [[0; 1; 0; 1; 0; 0; 0]; [0; 1; 0; 1; 0; 0; 0]; [0; 1; 0; 1; 0; 1; 1]; [0; 1; 0; 1; 0; 1; 1]].
 Proof. exact ex_hist_verdicts_proof. Qed.
 
 (* the exclusions of theorem 4 are necessary: an already-bound pod replayed by the informer is
